@@ -678,3 +678,6 @@ def workload(ctx):
     ctx.floor("derived_key_maps", 100)
     ctx.floor("handler:SubstitutionMapper.map_subscript", 500)
     ctx.floor("handler:SubstitutionMapper.map_lookup", 200)
+
+
+RULE = RULE + "  Later additions: multivector / array coefficients; rule tables expanded by re-entering the mapper; the caller's table after failing uses; streams of temporaries."
